@@ -387,6 +387,73 @@ func runC13(c *Ctx, w *World, r *Report) {
 					return // the first (masked) word is not in a loop
 				}
 				nscan++
+				// the scan is entered whenever the first word yields nothing: no further test between the first word's
+				// test and the loop decides whether the following words are looked at (its own range test apart)
+				if iv.Phi != nil {
+					hb := iv.Phi.Block()
+					var firstTest *ssa.If
+					for d := hb.Idom(); d != nil; d = d.Idom() {
+						ifi, ok := d.Instrs[len(d.Instrs)-1].(*ssa.If)
+						if !ok {
+							continue
+						}
+						bo, ok := ifi.Cond.(*ssa.BinOp)
+						if !ok || (bo.Op != token.NEQ && bo.Op != token.EQL) {
+							continue
+						}
+						for _, side := range [2][2]ssa.Value{{bo.X, bo.Y}, {bo.Y, bo.X}} {
+							if k, isK := constUint64(stripConv(side[1])); isK && k == 0 {
+								if _, _, isW := wordOrigin(side[0], "bm"); isW {
+									firstTest = ifi
+								}
+							}
+						}
+						if firstTest != nil {
+							break
+						}
+					}
+					if firstTest != nil {
+						for pi, pred := range hb.Preds {
+							if hb.Dominates(pred) {
+								continue
+							}
+							firstL := fa.Lin(iv.Phi.Edges[pi])
+							for _, cd := range append(append([]Cond{}, fa.Conds(pred)...), selfCond(pred, hb)...) {
+								if cd.If == nil || cd.If == firstTest || !firstTest.Block().Dominates(cd.If.Block()) {
+									continue
+								}
+								okOwn := false
+								if L, op, ok := fa.CondRel(cd); ok {
+									if n == "bitmap.NextOne" {
+										okOwn = L.Eq(firstL.Sub(endL)) && op == opLT || L.Eq(endL.Sub(firstL)) && op == opGT
+									} else {
+										okOwn = L.Eq(firstL.Sub(iL)) && op == opGE || L.Eq(iL.Sub(firstL)) && op == opLE
+									}
+								}
+								// a re-test of the 'nothing found yet' sentinel the first word's test produced (`nxt := posOf(first
+								// word); if nxt == -1 { scan }`): a merge behind that test, compared with a constant one of its
+								// alternatives is
+								if bo, isBo := cd.V.(*ssa.BinOp); isBo && !okOwn {
+									for _, side := range [2][2]ssa.Value{{bo.X, bo.Y}, {bo.Y, bo.X}} {
+										ph, isPhi := stripConv(side[0]).(*ssa.Phi)
+										kc, isK := constInt64(stripConv(side[1]))
+										if !isPhi || !isK || isLoopHeaderPhi(ph) || !firstTest.Block().Dominates(ph.Block()) {
+											continue
+										}
+										for _, e := range ph.Edges {
+											if ek, isC := constInt64(stripConv(e)); isC && ek == kc {
+												okOwn = true
+											}
+										}
+									}
+								}
+								if !okOwn {
+									badE = "after the first word yielded nothing, whether the following words are scanned additionally depends on the branch at " + w.InstrPos(cd.If) + ": a 1-bit in a word the range reaches into can be answered 'not found' without that word being looked at"
+								}
+							}
+						}
+					}
+				}
 				// every word between the first one and the far end is examined, nearest first: the counter moves one
 				// word per round towards the far end (forward for NextOne, backward for PrevOne)
 				{
